@@ -121,10 +121,16 @@ class Workflow(object):
                 unify=False)
             e.fix()
             for node, expr in inputs:
-                t = min_type.get(node, None)
-                if node in self.sources and (not t
-                        or expr.type.is_subtype(t, True) is not False):
-                    min_type[node] = expr.type
+                if node not in self.sources:
+                    continue
+                s, t = expr.type, min_type.get(node, None)
+                # A use without annotation tells us nothing here: the type of
+                # that source must then be left to inference on the workflow
+                # as a whole, in whatever order we come across its uses
+                if isinstance(s, TypeVariable) or isinstance(t, TypeVariable):
+                    min_type[node] = s if isinstance(s, TypeVariable) else t
+                elif not t or s.is_subtype(t, True) is not False:
+                    min_type[node] = s
 
         for src in self.sources:
             if src in min_type:
